@@ -152,6 +152,10 @@ structure Resp where
   body : Bytes
   deriving Repr, BEq, DecidableEq
 
+/-- `response: list[bytes]` receives every `write()` argument and every chunk of the iterable, in the order they
+    are produced (`response.append`); `body = b"".join(response)` -/
+def joinResponse (response : List Bytes) : Bytes := response.flatten
+
 /-- `status.split(" ", 1)` with exactly two parts -/
 def splitSpace : Str → Option (Str × Str)
   | [] => none
